@@ -1,4 +1,281 @@
-/- C12 — property theorems (under construction). -/
+/-
+  C12 — comments and downtimes follow additions and removals.
+
+  `maxIdOrSizeChanged` is `maxIDOrSizeChanged` (the cheap `Stats: count, max id` test that decides
+  whether the id list is fetched at all), `syncEntries` is the diff of
+  `updateDeltaCommentsOrDowntimes` (remove what is gone, append what is new), `rebuildLists` is
+  `buildDowntimeCommentsList` for both tables.
+-/
 import Lmd.PeerLoop
+import Lmd.Lemmas.SyncLemmas
+
 namespace Lmd.C12
+open Lean (Json JsonNumber)
+open Lmd.SyncLemmas
+
+/-! ## 0. concrete tables for the examples -/
+
+def exComments : Table :=
+  { name := "comments",
+    cols := [{ name := "id", dtype := .int64, storage := .loc },
+             { name := "host_name", dtype := .str, storage := .loc },
+             { name := "service_description", dtype := .str, storage := .loc }],
+    primaryKey := ["id"] }
+
+def exC1 : ReplyRow := [("id", .num ⟨1, 0⟩), ("host_name", .str "alpha"), ("service_description", .str "")]
+def exC300 : ReplyRow := [("id", .num ⟨300, 0⟩), ("host_name", .str "alpha"), ("service_description", .str "")]
+
+/-- the cached form of a backend row -/
+def exRow (r : ReplyRow) : Row := coerceRow exComments r
+
+/-- the example table is a comments / downtimes table -/
+theorem exEntryTable : EntryTable exComments :=
+  ⟨⟨{ name := "id", dtype := .int64, storage := .loc }, by decide, rfl, rfl⟩,
+   ⟨{ name := "host_name", dtype := .str, storage := .loc }, by decide, rfl, rfl⟩,
+   ⟨{ name := "service_description", dtype := .str, storage := .loc }, by decide, rfl, rfl⟩⟩
+
+/-! ## 1. the cheap change test -/
+
+/-- The backend hands out ids in increasing order: its ids are pairwise different, and an id the
+    cache does not know yet is larger than every cached id.  (Ids being positive is not needed:
+    the maximum lmd computes starts at 0 and is only compared from below.) -/
+structure MonotoneIds (cached : List Row) (backend : List ReplyRow) : Prop where
+  backendNodup : (backend.map replyId).Nodup
+  fresh : ∀ r ∈ backend, replyId r ∉ cached.map (·.int "id") → ∀ c ∈ cached, c.int "id" < replyId r
+
+/-- `change_detected`: when the backend's ids increase monotonically, every difference between the
+    set of backend ids and the set of cached ids is noticed by the `count / max id` test — although
+    the test compares the backend's maximum with the id of the LAST cached row, not with the cached
+    maximum.  This covers the empty cache, the emptied backend, the removal of the newest entry and
+    a removal that is balanced by an addition. -/
+theorem change_detected (cached : List Row) (backend : List ReplyRow)
+    (hm : MonotoneIds cached backend)
+    (hdiff : ¬ ∀ i, i ∈ backend.map replyId ↔ i ∈ cached.map (·.int "id")) :
+    maxIdOrSizeChanged cached backend = true :=
+  changed_of_ids_differ hm.backendNodup hm.fresh hdiff
+
+/-- comment 300 was added to a cache holding comment 1 -/
+example : MonotoneIds [exRow exC1] [exC1, exC300] ∧
+    ¬ ∀ i, i ∈ [exC1, exC300].map replyId ↔ i ∈ [exRow exC1].map (·.int "id") :=
+  ⟨⟨by decide, by decide⟩, fun h => absurd ((h 300).mp (by decide)) (by decide)⟩
+
+/-- the newest comment 300 was removed, and the backend was emptied -/
+example : MonotoneIds [exRow exC1, exRow exC300] [exC1] ∧ MonotoneIds [exRow exC1, exRow exC300] [] ∧
+    maxIdOrSizeChanged [exRow exC1, exRow exC300] [exC1] = true ∧
+    maxIdOrSizeChanged [exRow exC1, exRow exC300] [] = true :=
+  ⟨⟨by decide, by decide⟩, ⟨by decide, by decide⟩, by decide, by decide⟩
+
+/-- `no_monotone_counterexample`: without monotone ids the test misses a change: the cache holds
+    the ids 2, 3, the backend now has 1, 3 — same size, and the backend maximum 3 equals the id of
+    the last cached row, so nothing is fetched although comment 2 is gone and comment 1 is new. -/
+theorem no_monotone_counterexample :
+    ∃ (cached : List Row) (backend : List ReplyRow),
+      (backend.map replyId).Nodup ∧ (cached.map (·.int "id")).Nodup ∧
+      (¬ ∀ i, i ∈ backend.map replyId ↔ i ∈ cached.map (·.int "id")) ∧
+      maxIdOrSizeChanged cached backend = false :=
+  ⟨[{ cells := [("id", .i 2)] }, { cells := [("id", .i 3)] }],
+    [[("id", .num ⟨1, 0⟩)], [("id", .num ⟨3, 0⟩)]],
+    by decide, by decide, fun h => absurd ((h 1).mp (by decide)) (by decide), by decide⟩
+
+/-! ## 2. the diff -/
+
+/-- `sync_exact`: after `syncEntries` the table holds exactly the backend's ids — as a set, and as
+    a list the kept cached ids in cache order followed by the new ids in reply order; the rows are
+    the kept cached rows (unchanged) followed by the coerced new backend rows; a cached row whose id
+    the backend no longer has is gone, one whose id the backend still has is still there. -/
+theorem sync_exact (tab : Table) (cached : List Row) (backend : List ReplyRow)
+    (hid : ∃ c, tab.col? "id" = some c ∧ c.storage = .loc ∧ c.dtype = .int64) :
+    (∀ i, i ∈ (syncEntries tab cached backend).map (·.int "id") ↔ i ∈ backend.map replyId) ∧
+    (syncEntries tab cached backend).map (·.int "id") =
+      (cached.map (·.int "id")).filter (fun i => (backend.map replyId).contains i) ++
+        (backend.map replyId).filter (fun i => !(cached.map (·.int "id")).contains i) ∧
+    syncEntries tab cached backend =
+      cached.filter (fun r => (backend.map replyId).contains (r.int "id")) ++
+        (backend.filter (fun r => !(cached.map (·.int "id")).contains (replyId r))).map (coerceRow tab) ∧
+    (∀ c ∈ cached, c.int "id" ∉ backend.map replyId → c ∉ syncEntries tab cached backend) ∧
+    (∀ c ∈ cached, c.int "id" ∈ backend.map replyId → c ∈ syncEntries tab cached backend) ∧
+    (∀ row ∈ syncEntries tab cached backend,
+      row ∈ cached ∨ ∃ r ∈ backend, replyId r ∉ cached.map (·.int "id") ∧ row = coerceRow tab r) := by
+  refine ⟨mem_syncEntries_ids hid cached backend, syncEntries_ids hid cached backend,
+    syncEntries_eq tab cached backend, ?_, ?_, ?_⟩
+  · intro c _ hn hc
+    exact hn ((mem_syncEntries_ids hid cached backend _).mp (List.mem_map.mpr ⟨c, hc, rfl⟩))
+  · intro c hc hb
+    exact mem_syncEntries.mpr (Or.inl ⟨hc, hb⟩)
+  · intro row hrow
+    rcases mem_syncEntries.mp hrow with h | ⟨r, hr, hn, e⟩
+    · exact Or.inl h.1
+    · exact Or.inr ⟨r, hr, hn, e.symm⟩
+
+example : ∃ c, exComments.col? "id" = some c ∧ c.storage = .loc ∧ c.dtype = .int64 :=
+  exEntryTable.id
+
+/-- comment 1 is removed and comment 300 is new: the table then holds exactly comment 300 -/
+example : (syncEntries exComments [exRow exC1] [exC300]).map (·.int "id") = [300] := by decide
+
+/-- An emptied backend table empties the cached table. -/
+theorem sync_empty (tab : Table) (cached : List Row) : syncEntries tab cached [] = [] := by
+  rw [syncEntries_eq]; simp
+
+/-- Removing the newest entry: when the cache holds `old ++ [newest]`, the backend still has all
+    ids of `old`, nothing new, and no longer the id of `newest`, the table afterwards is `old`. -/
+theorem sync_remove_newest (tab : Table) (old : List Row) (newest : Row) (backend : List ReplyRow)
+    (hold : ∀ c ∈ old, c.int "id" ∈ backend.map replyId)
+    (hnew : ∀ r ∈ backend, replyId r ∈ old.map (·.int "id"))
+    (hgone : newest.int "id" ∉ backend.map replyId) :
+    syncEntries tab (old ++ [newest]) backend = old := by
+  rw [syncEntries_eq]
+  have h1 : (old ++ [newest]).filter (fun r => (backend.map replyId).contains (r.int "id")) = old := by
+    have h0 : (backend.map replyId).contains (newest.int "id") = false := by simpa using hgone
+    rw [List.filter_append, List.filter_eq_self.mpr (fun c hc => by simpa using hold c hc),
+      List.filter_cons_of_neg (by
+        show ¬ (backend.map replyId).contains (newest.int "id") = true
+        rw [h0]; simp)]
+    simp
+  have h2 : backend.filter (fun r => !((old ++ [newest]).map (·.int "id")).contains (replyId r)) = [] := by
+    rw [List.filter_eq_nil_iff]
+    intro r hr
+    have hm : replyId r ∈ (old ++ [newest]).map (·.int "id") := by
+      rw [List.map_append]; exact List.mem_append_left _ (hnew r hr)
+    have hc : ((old ++ [newest]).map (·.int "id")).contains (replyId r) = true := by simpa using hm
+    show ¬ (!((old ++ [newest]).map (·.int "id")).contains (replyId r)) = true
+    rw [hc]; simp
+  rw [h1, h2]; simp
+
+example : syncEntries exComments ([exRow exC1] ++ [exRow exC300]) [exC1] = [exRow exC1] :=
+  sync_remove_newest exComments _ _ _ (by decide) (by decide) (by decide)
+
+/-- If the cached ids are pairwise different and the backend's ids are pairwise different, the ids
+    after the step are pairwise different again. -/
+theorem sync_nodup (tab : Table) (cached : List Row) (backend : List ReplyRow)
+    (hid : ∃ c, tab.col? "id" = some c ∧ c.storage = .loc ∧ c.dtype = .int64)
+    (hc : (cached.map (·.int "id")).Nodup) (hb : (backend.map replyId).Nodup) :
+    ((syncEntries tab cached backend).map (·.int "id")).Nodup := by
+  rw [syncEntries_ids hid, List.nodup_append]
+  refine ⟨hc.filter _, hb.filter _, ?_⟩
+  intro a ha b hb' e
+  subst e
+  have h1 := (List.mem_filter.mp ha).1
+  have h2 := (List.mem_filter.mp hb').2
+  simp only [List.contains_eq_mem, Bool.not_eq_true', decide_eq_false_iff_not] at h2
+  exact h2 h1
+
+/-! ## 3. the id lists of hosts and services follow -/
+
+/-- `lists_follow` on plain tables: after the comments (or downtimes) table was brought up to date
+    with `syncEntries` and the id lists were rebuilt with `buildIdLists`, every host lists exactly
+    the ids of the backend's current entries for that host with an empty service description, and
+    every service with a non-empty description exactly the ids of the backend's current entries for
+    that host and description.  `Faithful`: the entries already cached agree with the backend rows of
+    the same id on host and service (entries never move). -/
+theorem lists_follow_tables (name : String) (tab : Table) (cached : List Row) (backend : List ReplyRow)
+    (hosts services : List Row) (ht : EntryTable tab) (hf : Faithful cached backend) :
+    (∀ (k : Nat) (h : Row), hosts[k]? = some h →
+      ∃ h' l, (buildIdLists name (syncEntries tab cached backend) hosts services).1[k]? = some h' ∧
+        h'.cell? name = some (.il l) ∧
+        ∀ i, i ∈ l ↔ ∃ r ∈ backend, replyId r = i ∧ replyStr r "host_name" = strCell h "name" ∧
+          replyStr r "service_description" = "") ∧
+    (∀ (k : Nat) (s : Row), services[k]? = some s → strCell s "description" ≠ "" →
+      ∃ s' l, (buildIdLists name (syncEntries tab cached backend) hosts services).2[k]? = some s' ∧
+        s'.cell? name = some (.il l) ∧
+        ∀ i, i ∈ l ↔ ∃ r ∈ backend, replyId r = i ∧ replyStr r "host_name" = strCell s "host_name" ∧
+          replyStr r "service_description" = strCell s "description") := by
+  rw [buildIdLists_fst, buildIdLists_snd]
+  constructor
+  · intro k h hk
+    exact ⟨_, _, by rw [List.getElem?_map, hk]; rfl, setCell_cell?_self _ _ _,
+      fun i => mem_attachedIds_syncEntries ht hf _ _ i⟩
+  · intro k s hk hd
+    refine ⟨_, serviceIds (syncEntries tab cached backend) s,
+      by rw [List.getElem?_map, hk]; rfl, setCell_cell?_self _ _ _, fun i => ?_⟩
+    have hd' : (strCell s "description" == "") = false := by simpa using hd
+    unfold serviceIds
+    simp only [hd', Bool.false_eq_true, if_false]
+    exact mem_attachedIds_syncEntries ht hf _ _ i
+
+/-- `lists_follow`: the same on the peer's cache, as `updateDeltaCommentsOrDowntimes` does it for the
+    comments table (`c.set "comments" (syncEntries …)` followed by `rebuildLists`): afterwards the
+    `comments` list of every host holds exactly the ids of the backend's current host comments of
+    that host, the `comments` list of every service (with a description) the ids of the backend's
+    current comments of that service; the hosts and services keep their positions and all their
+    other cells. -/
+theorem lists_follow (c : Cache) (tab : Table) (backend : List ReplyRow)
+    (ht : EntryTable tab) (hf : Faithful (c.get "comments") backend) :
+    let c' := rebuildLists (c.set "comments" (syncEntries tab (c.get "comments") backend))
+    (∀ (k : Nat) (h : Row), (c.get "hosts")[k]? = some h →
+      ∃ h' l, (c'.get "hosts")[k]? = some h' ∧ h'.cell? "comments" = some (.il l) ∧
+        (∀ i, i ∈ l ↔ ∃ r ∈ backend, replyId r = i ∧ replyStr r "host_name" = strCell h "name" ∧
+          replyStr r "service_description" = "") ∧
+        ∀ n, n ≠ "comments" → n ≠ "downtimes" → h'.cell? n = h.cell? n) ∧
+    (∀ (k : Nat) (s : Row), (c.get "services")[k]? = some s → strCell s "description" ≠ "" →
+      ∃ s' l, (c'.get "services")[k]? = some s' ∧ s'.cell? "comments" = some (.il l) ∧
+        (∀ i, i ∈ l ↔ ∃ r ∈ backend, replyId r = i ∧ replyStr r "host_name" = strCell s "host_name" ∧
+          replyStr r "service_description" = strCell s "description") ∧
+        ∀ n, n ≠ "comments" → n ≠ "downtimes" → s'.cell? n = s.cell? n) := by
+  intro c'
+  have hH : c'.get "hosts" = _ := rebuildLists_hosts _
+  have hS : c'.get "services" = _ := rebuildLists_services _
+  rw [Cache.get_set_other c "comments" "hosts" _ (by decide),
+    Cache.get_set_other c "comments" "downtimes" _ (by decide), Cache.get_set_self] at hH
+  rw [Cache.get_set_other c "comments" "services" _ (by decide),
+    Cache.get_set_other c "comments" "downtimes" _ (by decide), Cache.get_set_self] at hS
+  constructor
+  · intro k h hk
+    refine ⟨_, _, by rw [hH, List.getElem?_map, hk]; rfl, ?_,
+      fun i => mem_attachedIds_syncEntries ht hf _ _ i, fun n h1 h2 => ?_⟩
+    · rw [setCell_cell?_other _ _ _ _ (by decide), setCell_cell?_self]; rfl
+    · rw [setCell_cell?_other _ _ _ _ h2, setCell_cell?_other _ _ _ _ h1]
+  · intro k s hk hd
+    have hd' : (strCell s "description" == "") = false := by simpa using hd
+    refine ⟨_, serviceIds (syncEntries tab (c.get "comments") backend) s,
+      by rw [hS, List.getElem?_map, hk]; rfl, ?_, fun i => ?_, fun n h1 h2 => ?_⟩
+    · rw [setCell_cell?_other _ _ _ _ (by decide), setCell_cell?_self]
+    · unfold serviceIds
+      simp only [hd', Bool.false_eq_true, if_false]
+      exact mem_attachedIds_syncEntries ht hf _ _ i
+    · rw [setCell_cell?_other _ _ _ _ h2, setCell_cell?_other _ _ _ _ h1]
+
+/-- the same for the downtimes table -/
+theorem lists_follow_downtimes (c : Cache) (tab : Table) (backend : List ReplyRow)
+    (ht : EntryTable tab) (hf : Faithful (c.get "downtimes") backend) :
+    let c' := rebuildLists (c.set "downtimes" (syncEntries tab (c.get "downtimes") backend))
+    (∀ (k : Nat) (h : Row), (c.get "hosts")[k]? = some h →
+      ∃ h' l, (c'.get "hosts")[k]? = some h' ∧ h'.cell? "downtimes" = some (.il l) ∧
+        (∀ i, i ∈ l ↔ ∃ r ∈ backend, replyId r = i ∧ replyStr r "host_name" = strCell h "name" ∧
+          replyStr r "service_description" = "")) ∧
+    (∀ (k : Nat) (s : Row), (c.get "services")[k]? = some s → strCell s "description" ≠ "" →
+      ∃ s' l, (c'.get "services")[k]? = some s' ∧ s'.cell? "downtimes" = some (.il l) ∧
+        (∀ i, i ∈ l ↔ ∃ r ∈ backend, replyId r = i ∧ replyStr r "host_name" = strCell s "host_name" ∧
+          replyStr r "service_description" = strCell s "description")) := by
+  intro c'
+  have hH : c'.get "hosts" = _ := rebuildLists_hosts _
+  have hS : c'.get "services" = _ := rebuildLists_services _
+  rw [Cache.get_set_other c "downtimes" "hosts" _ (by decide),
+    Cache.get_set_other c "downtimes" "comments" _ (by decide), Cache.get_set_self] at hH
+  rw [Cache.get_set_other c "downtimes" "services" _ (by decide),
+    Cache.get_set_other c "downtimes" "comments" _ (by decide), Cache.get_set_self] at hS
+  constructor
+  · intro k h hk
+    exact ⟨_, _, by rw [hH, List.getElem?_map, hk]; rfl, setCell_cell?_self _ _ _,
+      fun i => mem_attachedIds_syncEntries ht hf _ _ i⟩
+  · intro k s hk hd
+    have hd' : (strCell s "description" == "") = false := by simpa using hd
+    refine ⟨_, serviceIds (syncEntries tab (c.get "downtimes") backend) s,
+      by rw [hS, List.getElem?_map, hk]; rfl, setCell_cell?_self _ _ _, fun i => ?_⟩
+    unfold serviceIds
+    simp only [hd', Bool.false_eq_true, if_false]
+    exact mem_attachedIds_syncEntries ht hf _ _ i
+
+/-- a cache with host "alpha" and comment 1; the backend now has the comments 1 and 300 -/
+example : EntryTable exComments ∧ Faithful [exRow exC1] [exC1, exC300] := by
+  refine ⟨exEntryTable, ?_⟩
+  unfold Faithful
+  decide
+
+example :
+    let c : Cache := [("hosts", [{ cells := [("name", .s "alpha")] }]), ("comments", [exRow exC1])]
+    ((rebuildLists (c.set "comments" (syncEntries exComments (c.get "comments") [exC1, exC300]))).get
+      "hosts").map (fun h => match h.cell? "comments" with | some (.il l) => l | _ => []) = [[1, 300]] := by
+  decide
+
 end Lmd.C12
